@@ -3,8 +3,8 @@
    the reader index arithmetic (ReadExodusMesh.py), tied to /repo by exact comparison on every run (tools/props/c13.py). *)
 From Coq Require Import List Arith ZArith Reals.
 From OV.base Require Import Num.
-From OV.model Require Import M_C13_Struct M_C13_Edges M_C13_Combine M_C13_Read M_C13_Elevate.
-From OV.proofs Require Import L_C13_Struct L_C13_Edges L_C13_Combine L_C13_Read L_C13_Top L_C13_Elevate L_C13_Elev2.
+From OV.model Require Import M_C13_Struct M_C13_Edges M_C13_Combine M_C13_Read M_C13_Elevate M_C13_Coords.
+From OV.proofs Require Import L_C13_Struct L_C13_Edges L_C13_Combine L_C13_Read L_C13_Top L_C13_Elevate L_C13_Elev2 L_C13_Elev3 L_C13_Coords.
 Import ListNotations.
 
 (* ---- structured generator: in-range connectivity using every node, counter-clockwise elements of positive area,
@@ -182,9 +182,50 @@ Proof. exact elevated_entry. Qed.
 Theorem C13_elevate_edge_point_conform : forall a b s s' delta : R, (Rabs (s + s' - 1) <= delta)%R ->
   (Rabs (((1 - s') * a + s' * b) - ((1 - s) * b + s * a)) <= delta * Rabs (a - b))%R.
 Proof. exact edge_point_conform. Qed.
-(* NOT PROVED: that the node COORDINATES written by create_higher_order_mesh_from_simplex_mesh are the affine images of
-   the reference nodes for every element (needs a model of the coordinate arrays and the certificate that reference
-   face nodes lie at the 1-D Lobatto parameters); evaluated on the implementation's elevated meshes (tests). *)
+(* every entry of every elevated row is written (the 0 of np.zeros never survives): certified reference element, rows of
+   three vertices, no degenerate side, and no directed vertex pair occurring twice (consistently oriented manifold) *)
+Theorem C13_elevate_every_entry_written : forall conns pe nV m, pe_okb pe m = true ->
+  NoDup (all_faces conns) -> (forall f, In f (all_faces conns) -> fst f <> snd f) -> Forall (fun c => length c = 3) conns ->
+  forall t pos, t < length conns -> pos < pe_n pe ->
+  exists v, lookup (events pe nV m conns) (t, pos) = Some v /\ nth pos (nth t (elevated pe nV m conns) []) 0 = v.
+Proof. exact elevated_entry_written. Qed.
+
+(* ---- order elevation, COORDINATES (one component; x and y alike).  [elev_coord] is the stacked coordinate array
+        vstack((mesh.coords, edgeCoords, interiorCoords)) (compared with the implementation on every run); which row an id denotes: *)
+Theorem C13_elevate_coord_rows : forall (X s1d N0 N1 : nat -> R) (ea eb : nat -> nat) (tri : nat -> nat -> nat) nV nE m nI,
+  (forall v, v < nV -> elev_coord X s1d N0 N1 ea eb tri nV nE m nI v = X v)
+  /\ (forall e k, e < nE -> k < m -> elev_coord X s1d N0 N1 ea eb tri nV nE m nI (nV + e * m + k) = edge_coord X s1d ea eb e k)
+  /\ (forall t k, k < nI -> elev_coord X s1d N0 N1 ea eb tri nV nE m nI (nV + nE * m + t * nI + k) = interior_coord X N0 N1 tri t k).
+Proof.
+  intros. split; [intros; now apply coord_of_vertex_id |]. split; [intros; now apply coord_of_edge_id | intros; now apply coord_of_interior_id].
+Qed.
+(* affine placement.  (xi0, xi1): reference coordinates of the face position; the certificate ref_face_okb (evaluated in Coq over Q on
+   the implementation's tables for ALL orders 1..5 with and without bubble on every run, tol 1e-14) bounds their distance to the side
+   weights by delta; lobatto_sym_cert bounds |s_k + s_{m-1-k} - 1| by delta'.  Together with C13_elevate_conform (which id sits at which
+   face position) the stored coordinate of every edge node is the affine image of its reference node, for the left AND the right element: *)
+Theorem C13_elevate_affine_left : forall s (sk xi0 xi1 X0 X1 X2 delta : R), s < 3 ->
+  (Rabs (xi0 - side_weight s 0 sk) <= delta)%R -> (Rabs (xi1 - side_weight s 1 sk) <= delta)%R ->
+  let Xa := nth s [X0; X1; X2] 0%R in let Xb := nth ((s + 1) mod 3) [X0; X1; X2] 0%R in
+  (Rabs (affine_image xi0 xi1 X0 X1 X2 - ((1 - sk) * Xa + sk * Xb)) <= delta * (Rabs (X0 - X2) + Rabs (X1 - X2)))%R.
+Proof. exact affine_placement_left. Qed.
+Theorem C13_elevate_affine_right : forall s (sk sk' xi0 xi1 X0 X1 X2 delta delta' : R), s < 3 ->
+  (Rabs (xi0 - side_weight s 0 sk) <= delta)%R -> (Rabs (xi1 - side_weight s 1 sk) <= delta)%R ->
+  (Rabs (sk + sk' - 1) <= delta')%R ->
+  let Xa := nth s [X0; X1; X2] 0%R in let Xb := nth ((s + 1) mod 3) [X0; X1; X2] 0%R in
+  (Rabs (affine_image xi0 xi1 X0 X1 X2 - ((1 - sk') * Xb + sk' * Xa))
+   <= delta * (Rabs (X0 - X2) + Rabs (X1 - X2)) + delta' * Rabs (Xa - Xb))%R.
+Proof. exact affine_placement_right. Qed.
+(* vertex and interior positions: exact (vertex reference coordinates are the unit points: certificate ref_vertex_okb;
+   the interior weights are the reference coordinates of the interior positions, the same table) *)
+Theorem C13_elevate_affine_vertex_interior :
+  (forall X0 X1 X2 : R, affine_image 1 0 X0 X1 X2 = X0 /\ affine_image 0 1 X0 X1 X2 = X1 /\ affine_image 0 0 X0 X1 X2 = X2)
+  /\ (forall (X N0 N1 : nat -> R) tri t k,
+        interior_coord X N0 N1 tri t k = affine_image (N0 k) (N1 k) (X (tri t 0)) (X (tri t 1)) (X (tri t 2))).
+Proof. split; [exact affine_placement_vertex | exact affine_placement_interior]. Qed.
+(* NOT PROVED: one closed statement quantifying over the whole elevated mesh (for all t, pos: coords[elevated[t][pos]] is the
+   affine image of reference node pos); it is the composition of C13_elevate_conform / C13_elevate_vertex_interior (which id sits
+   where), C13_elevate_coord_rows (which coordinate an id has) and the three placement theorems above, with the certificates
+   supplying delta and delta'.  Binary64 rounding of the matrix products is covered by the correspondence only. *)
 
 Example C13_nonvacuous : exists (xs ys : nat -> R),
   (forall i, S i < 3 -> (xs i < xs (S i))%R) /\ (forall j, S j < 4 -> (ys j < ys (S j))%R)
@@ -200,3 +241,5 @@ Print Assumptions C13_combine_sidesets_no_loss.
 Print Assumptions C13_reader_indices.
 Print Assumptions C13_elevate_writes_survive.
 Print Assumptions C13_elevate_conform.
+Print Assumptions C13_elevate_every_entry_written.
+Print Assumptions C13_elevate_affine_right.
